@@ -405,7 +405,7 @@ func runC20(c *CaseCtx) {
 
 func init() {
 	register(&Check{
-		ID: "C20", Level: "exploration",
+		ID: "C20", Level: "exploration", NoLeakMonitor: true,
 		NCases: func(t string) int { return tier(t, 1600, 40000) },
 		Run:    runC20,
 		Rule: "case = random sequence of calls on a pre-populated database: every exported Tx method (reflection-enumerated) with arguments drawn by type from boundary pools ([]byte: nil, empty, '|', 'a|b', 0x00/0xff, 70 KB; ints: 0, +-1, +-2^31, MinInt64, MaxInt64; floats: +-0, +-Inf, NaN, MaxFloat64, denormal; invalid regexps; nil options), " +
